@@ -196,7 +196,7 @@ func TestC04(t *testing.T) {
 					}
 				}
 				before := generic(t, p)
-				env := &mapEnv{m: map[string]string{"X": "ex", "Y": "why"}}
+				env := &mapEnv{m: map[string]string{"X": "ex-$Y-${X}", "Y": "why$$X"}} // values that look like references: never expanded again
 				want, err := expand(env, before)
 				if err != nil {
 					t.Fatalf("reference: %v", err)
@@ -318,7 +318,7 @@ func TestC10(t *testing.T) {
 			for _, fold := range []bool{false, true} {
 				mk := func() *mapEnv {
 					e := &mapEnv{m: map[string]string{}, fold: fold}
-					e.Set("RT", "runtime")
+					e.Set("RT", "runtime$A${B}") // a value that looks like a reference
 					if n%2 == 0 {
 						e.Set("A", "rtA")
 					}
